@@ -57,7 +57,7 @@ RAW["colB"] = {"type": "record", "name": "pal.Palette", "fields": [{"name": "mai
                                                                {"name": "others", "type": {"type": "array", "items": "Color"}}, {"name": "m", "type": {"type": "map", "values": "pal.Color"}}]}
 DATA["colA"] = [{"main": "GREEN", "others": ["RED", "GREEN", "BLUE"], "m": {"k": "BLUE"}}]
 DATA["colB"] = [{"main": "KEY", "others": ["CYAN", "MAGENTA", "YELLOW"], "m": {"k": "YELLOW"}}]
-KINDS = ["swrite", "sread", "validate", "cwrite", "cread", "jwrite", "jread", "parse", "canon", "fingerprint"]
+KINDS = ["swrite", "sread", "validate", "cwrite", "cread", "jwrite", "jread", "parse", "canon", "fingerprint", "sread_rs"]
 JSON_OK = {"rec", "union", "dec_lo", "dec_hi", "logical", "colA", "colB"}
 _CHECK = None
 
@@ -169,7 +169,7 @@ class C18(Check):
         "at most 4 preemptions per schedule; free-running threads are not sampled because they decide nothing",
         "generate_* is excluded: it draws from the process-wide random module by design",
     ]
-    required_labels = ["ops:2", "ops:3", "kind:sread", "kind:swrite", "kind:validate", "kind:parse", "kind:jwrite", "kind:cread", "logical", "shared-schema", "multi-preemption", "preempted-inside", "cold-start", "kind:fingerprint", "double-preemption"]
+    required_labels = ["ops:2", "ops:3", "kind:sread", "kind:swrite", "kind:validate", "kind:parse", "kind:jwrite", "kind:cread", "logical", "shared-schema", "multi-preemption", "preempted-inside", "cold-start", "kind:fingerprint", "kind:sread_rs", "double-preemption"]
     quick = (10, 4)
     thorough = (120, 16)
 
@@ -234,6 +234,8 @@ class C18(Check):
         yield {"ops": [{"kind": "sread", "schema": "colA", "datum": 0, "form": "raw"}, {"kind": "sread", "schema": "colB", "datum": 0, "form": "raw"}], "multi": []}
         yield {"ops": [{"kind": "fingerprint", "schema": "rec", "datum": 0, "form": "raw"}, {"kind": "fingerprint", "schema": "union", "datum": 0, "form": "raw"}], "multi": [], "cold": True}
         yield {"ops": [{"kind": "parse", "schema": "colA", "datum": 0, "form": "raw"}, {"kind": "canon", "schema": "colB", "datum": 0, "form": "raw"}], "multi": [], "cold": True}
+        yield {"ops": [{"kind": "sread_rs", "schema": "rec", "datum": 0, "form": "parsed"}, {"kind": "sread_rs", "schema": "rec", "datum": 1, "form": "parsed"}], "multi": [], "cold": True}
+        yield {"ops": [{"kind": "sread_rs", "schema": "logical", "datum": 0, "form": "parsed"}, {"kind": "cread", "schema": "logical", "datum": 0, "form": "parsed"}], "multi": [], "cold": True}
 
     # ------------------------------------------------------------------ operations
     def _prepare(self, op):
@@ -255,10 +257,8 @@ class C18(Check):
         sk = op["schema"]
         if pre is None:
             pre = self._prepare(op)
-        if op["form"] == "parsed":
-            schema = self.parsed()[sk] if _CHECK is self or pre is None else fastavro.parse_schema(RAW[sk])
-        else:
-            schema = RAW[sk]
+        # one parsed object per schema key and process, shared by all threads (in a cold child it is freshly parsed)
+        schema = self.parsed()[sk] if op["form"] == "parsed" else RAW[sk]
         datum = DATA[sk][op["datum"]]
         kind = op["kind"]
         enc, cenc, text = pre["enc"], pre["cenc"], pre["text"]
@@ -270,6 +270,10 @@ class C18(Check):
 
         def sread():
             return tagged.dumps(fastavro.schemaless_reader(io.BytesIO(enc), schema))
+
+        def sread_rs():
+            # schema resolution against a parsed reader schema object shared between the threads
+            return tagged.dumps(fastavro.schemaless_reader(io.BytesIO(enc), RAW[sk], self.parsed()[sk]))
 
         def validate():
             return fastavro.validate(datum, schema, raise_errors=False)
@@ -299,7 +303,7 @@ class C18(Check):
         def fingerprint():
             return fastavro.schema.fingerprint(pre["canon"], "CRC-64-AVRO")
 
-        return {"fingerprint": fingerprint, "swrite": swrite, "sread": sread, "validate": validate, "cwrite": cwrite, "cread": cread, "jwrite": jwrite, "jread": jread, "parse": parse, "canon": canon}[kind]
+        return {"sread_rs": sread_rs, "fingerprint": fingerprint, "swrite": swrite, "sread": sread, "validate": validate, "cwrite": cwrite, "cread": cread, "jwrite": jwrite, "jread": jread, "parse": parse, "canon": canon}[kind]
 
     def run_case(self, case):
         ops = case["ops"]
